@@ -72,13 +72,23 @@ pub open spec fn mk_vk(p: ProjectivePoint) -> VerifyingKey<TR> { VerifyingKey { 
 pub open spec fn mk_vs(p: ProjectivePoint) -> VerifyingShare<TR> { VerifyingShare(SerializableElement(p)) }
 pub open spec fn mk_ss(s: Scalar) -> SigningShare<TR> { SigningShare(SerializableScalar(s)) }
 
-// EvenY::into_even_y(None) on a key package: ALL of (group key, verifying share, signing share) negated iff the group key has odd Y
-pub open spec fn tr_kp_even(kp: KeyPackage<TR>) -> KeyPackage<TR> {
-    if !pt_y_odd(vk_pt(kp.verifying_key)) { kp } else {
+// EvenY::into_even_y(is_even): `is_even` = evenness determined beforehand, None = decide from the group key
+pub open spec fn want_even(key: ProjectivePoint, is_even: Option<bool>) -> bool { match is_even { Some(b) => b, None => !pt_y_odd(key) } }
+// ... on a key package: ALL of (group key, verifying share, signing share) negated iff the group key has odd Y
+pub open spec fn tr_kp_even_with(kp: KeyPackage<TR>, is_even: Option<bool>) -> KeyPackage<TR> {
+    if want_even(vk_pt(kp.verifying_key), is_even) { kp } else {
         KeyPackage { header: tr_header(), identifier: kp.identifier, signing_share: mk_ss(sc_neg(kp.signing_share.0.0)),
             verifying_share: mk_vs(pt_neg(kp.verifying_share.0.0)), verifying_key: mk_vk(pt_neg(vk_pt(kp.verifying_key))), min_signers: kp.min_signers }
     }
 }
+pub open spec fn tr_kp_even(kp: KeyPackage<TR>) -> KeyPackage<TR> { tr_kp_even_with(kp, None) }
+pub open spec fn tr_pt_even_with(p: ProjectivePoint, is_even: Option<bool>) -> ProjectivePoint { if want_even(p, is_even) { p } else { pt_neg(p) } }
+// the bytes a generic `T: AsRef<[u8]>` merkle root stands for (`root.as_ref()`); for `&[u8]` that is the slice itself (std: `impl AsRef<[T]> for [T]`
+// is the identity and `impl AsRef<U> for &T` forwards) -- assumed, T6
+pub uninterp spec fn asref_bytes<T>(t: T) -> Seq<u8>;
+pub axiom fn ax_asref_slice(s: &[u8])
+    ensures asref_bytes::<&[u8]>(s) == s@;
+pub open spec fn opt_root<T>(o: Option<T>) -> Option<Seq<u8>> { match o { None => None, Some(r) => Some(asref_bytes(r)) } }
 // Tweak::tweak(root) on a key package (BIP-341 applied to a share): even-Y normalisation FIRST, then key + t*G, verifying share + t*G,
 // signing share + t, with t computed from the x coordinate of the internal key
 pub open spec fn tr_kp_tweak(kp: KeyPackage<TR>, root: Option<Seq<u8>>) -> KeyPackage<TR> {
@@ -96,10 +106,11 @@ pub open spec fn shift_vs_map(m: Map<Identifier<TR>, VerifyingShare<TR>>, d: Pro
 { Map::new(m.dom(), |i: Identifier<TR>| mk_vs(pt_add(m[i].0.0, d))) }
 pub open spec fn pkp_is(q: PublicKeyPackage<TR>, vs: Map<Identifier<TR>, VerifyingShare<TR>>, vk: ProjectivePoint, min_signers: Option<u16>) -> bool
 { q.header == tr_header() && q.verifying_shares@ == vs && q.verifying_key == mk_vk(vk) && q.min_signers == min_signers }
-// EvenY::into_even_y(None) on a public key package: group key and EVERY verifying share negated iff the group key has odd Y
-pub open spec fn tr_pkp_even_is(p: PublicKeyPackage<TR>, q: PublicKeyPackage<TR>) -> bool {
-    if !pt_y_odd(vk_pt(p.verifying_key)) { q == p } else { pkp_is(q, neg_vs_map(p.verifying_shares@), pt_neg(vk_pt(p.verifying_key)), p.min_signers) }
+// EvenY::into_even_y on a public key package: group key and EVERY verifying share negated iff the group key has odd Y
+pub open spec fn tr_pkp_even_with_is(p: PublicKeyPackage<TR>, is_even: Option<bool>, q: PublicKeyPackage<TR>) -> bool {
+    if want_even(vk_pt(p.verifying_key), is_even) { q == p } else { pkp_is(q, neg_vs_map(p.verifying_shares@), pt_neg(vk_pt(p.verifying_key)), p.min_signers) }
 }
+pub open spec fn tr_pkp_even_is(p: PublicKeyPackage<TR>, q: PublicKeyPackage<TR>) -> bool { tr_pkp_even_with_is(p, None, q) }
 pub open spec fn tr_pkp_even(p: PublicKeyPackage<TR>) -> PublicKeyPackage<TR> { choose|q: PublicKeyPackage<TR>| tr_pkp_even_is(p, q) }
 // the verifying shares / key of the even-Y package as values (what the relation pins)
 pub open spec fn even_vs_map(p: PublicKeyPackage<TR>) -> Map<Identifier<TR>, VerifyingShare<TR>>
@@ -130,6 +141,53 @@ pub proof fn lemma_pkp_tweak_unique(p: PublicKeyPackage<TR>, root: Option<Seq<u8
     requires tr_pkp_tweak_is(p, root, q)
     ensures q == tr_pkp_tweak(p, root)
 { let c = tr_pkp_tweak(p, root); assert(tr_pkp_tweak_is(p, root, c)); lemma_pkp_ext(q, c); }
+
+// `m.iter().map(|(i, v)| (*i, f(v))).collect::<BTreeMap>()` is the map with the same keys and f applied to every value.  The premise is what
+// BTreeMap::iter (vstd) and the adaptor helper `map_collect_btreemap` (prelude/vstdx.rs) give, with the iteration sequence quantified.
+pub open spec fn collected_from<W>(m: Map<Identifier<TR>, VerifyingShare<TR>>, r: Map<Identifier<TR>, W>, f: spec_fn(VerifyingShare<TR>) -> W) -> bool {
+    exists|rem: Seq<(&Identifier<TR>, &VerifyingShare<TR>)>, vals: Seq<(Identifier<TR>, W)>| #![auto]
+        rem.len() == m.dom().len()
+        && (forall|i: int| 0 <= i < rem.len() ==> m.contains_key(*(#[trigger] rem[i]).0) && m[*rem[i].0] == *rem[i].1)
+        && vstd::std_specs::btree::increasing_seq(rem.map_values(|p: (&Identifier<TR>, &VerifyingShare<TR>)| *p.0))
+        && vals.len() == rem.len()
+        && (forall|k: int| 0 <= k < vals.len() ==> #[trigger] vals[k] == (*rem[k].0, f(*rem[k].1)))
+        && (forall|key: Identifier<TR>| #[trigger] r.contains_key(key) <==> exists|k: int| 0 <= k < vals.len() && (#[trigger] vals[k]).0 == key)
+        && (forall|k: int| 0 <= k < vals.len() && (forall|j: int| k < j < vals.len() ==> vals[j].0 != vals[k].0) ==> r[#[trigger] vals[k].0] == vals[k].1)
+}
+pub proof fn lemma_collected_from<W>(m: Map<Identifier<TR>, VerifyingShare<TR>>, r: Map<Identifier<TR>, W>, f: spec_fn(VerifyingShare<TR>) -> W)
+    requires m.dom().finite(), collected_from(m, r, f)
+    ensures r == Map::new(m.dom(), |i: Identifier<TR>| f(m[i]))
+{
+    crate::vspec::use_id_order::<TR>();
+    let (rem, vals) = choose|rem: Seq<(&Identifier<TR>, &VerifyingShare<TR>)>, vals: Seq<(Identifier<TR>, W)>| #![auto]
+        rem.len() == m.dom().len()
+        && (forall|i: int| 0 <= i < rem.len() ==> m.contains_key(*(#[trigger] rem[i]).0) && m[*rem[i].0] == *rem[i].1)
+        && vstd::std_specs::btree::increasing_seq(rem.map_values(|p: (&Identifier<TR>, &VerifyingShare<TR>)| *p.0))
+        && vals.len() == rem.len()
+        && (forall|k: int| 0 <= k < vals.len() ==> #[trigger] vals[k] == (*rem[k].0, f(*rem[k].1)))
+        && (forall|key: Identifier<TR>| #[trigger] r.contains_key(key) <==> exists|k: int| 0 <= k < vals.len() && (#[trigger] vals[k]).0 == key)
+        && (forall|k: int| 0 <= k < vals.len() && (forall|j: int| k < j < vals.len() ==> vals[j].0 != vals[k].0) ==> r[#[trigger] vals[k].0] == vals[k].1);
+    crate::vspec::lemma_btree_iter_sorted::<Identifier<TR>, VerifyingShare<TR>>(m, rem);
+    let ks = rem.map_values(|p: (&Identifier<TR>, &VerifyingShare<TR>)| *p.0);
+    let want = Map::new(m.dom(), |i: Identifier<TR>| f(m[i]));
+    ks.unique_seq_to_set();
+    assert forall|k: int| 0 <= k < vals.len() implies (#[trigger] vals[k]).0 == ks[k] by {}
+    assert forall|key: Identifier<TR>| r.contains_key(key) <==> m.contains_key(key) by {
+        if r.contains_key(key) { let k = choose|k: int| 0 <= k < vals.len() && (#[trigger] vals[k]).0 == key; assert(m.contains_key(*rem[k].0)); }
+        if m.contains_key(key) {
+            assert(crate::vspec::sorted_seq(m.dom()).to_set().contains(key)) by { crate::vspec::lemma_sorted_exists::<TR>(m.dom()); }
+            let k = choose|k: int| 0 <= k < ks.len() && ks[k] == key;
+            assert(vals[k].0 == key);
+        }
+    }
+    assert(r =~= want) by {
+        assert forall|key: Identifier<TR>| r.contains_key(key) implies #[trigger] r[key] == want[key] by {
+            let k = choose|k: int| 0 <= k < vals.len() && (#[trigger] vals[k]).0 == key;
+            assert forall|j: int| k < j < vals.len() implies vals[j].0 != vals[k].0 by { assert(ks[j] != ks[k]); }
+            assert(r[vals[k].0] == vals[k].1);
+        }
+    }
+}
 
 // ---------------------------------------------------------------------------------------------------
 // the hooks (what BIP-340 prescribes at each point where the suite departs from RFC 9591)
